@@ -101,7 +101,7 @@ func runC18(c *core.Ctx) {
 	lap("typestate")
 	x.header()
 	lap("header")
-	x.runLength() // R.* (c18_run.go)
+	x.runLength()  // R.* (c18_run.go)
 	x.countWidth() // N.width (c18_run.go)
 	lap("runlength")
 }
